@@ -295,7 +295,12 @@ func (s EMTState) NToKeepOnTrim() int {
 func (s *EMTState) edgeMultiComputeRecordSpecs(raw []RawType, frameIndexOfraw0 FrameIndex) []RecordSpec {
 	// we promise to never index into raw outside of a potential record starting
 	// at iFirst or iLast
-	maxLookback := s.npre            // set by npre
+	maxLookback := s.npre // set by npre
+	if s.enableZeroThreshold {
+		// the kink model can move a trigger one sample earlier than the edge it refines;
+		// leave room so that the refined trigger still has npre samples before it
+		maxLookback++
+	}
 	maxLookahead := s.nsamp - s.npre // set by npost=npre-nsamp
 	// EMTState.valid, which is checked on reset, makes sue npre and (nsamp-npre) are each 4 or greater, so the kink
 	// model can always look at least 4 samples back and 4 forward
